@@ -111,3 +111,39 @@ def sym_ads(eng: sx.Engine) -> S.Ads:
 
 def sym_mat(eng: sx.Engine) -> S.Mat:
     return S.Mat(eng.real('rho_mat', positive=True), eng.real('M_mat', positive=True))
+
+
+class ColumnStore:
+    """Assumed `pandas.DataFrame` column contract for the data store of a PointIsotherm:
+    `df[key]` returns the column, `df[key] = values` replaces it element-wise, keeping the other
+    columns, the row order and the row count.  Every write is recorded."""
+
+    def __init__(self, cols):
+        self.cols = dict(cols)
+        self.writes = []
+
+    def __getitem__(self, key):
+        if not isinstance(key, str):
+            raise sx.Unsupported(f"ColumnStore: unsupported key {key!r}")
+        return self.cols[key]
+
+    def __setitem__(self, key, value):
+        self.cols[key] = value
+        self.writes.append(key)
+
+    @property
+    def columns(self):
+        return list(self.cols)
+
+    def copy(self):
+        return ColumnStore({k: (v.copy() if hasattr(v, 'copy') else v) for k, v in self.cols.items()})
+
+
+class Token:
+    """Opaque value: may be moved and compared for identity only."""
+
+    def __init__(self, name):
+        self.name = name
+
+    def __repr__(self):
+        return f"<{self.name}>"
